@@ -7,6 +7,7 @@ for c in "$@"; do
   ./check $c 2>&1 | grep -E "VIOLATION|KNOWN-FINDING|done:" | cut -c1-160 | sort | uniq -c | sort -rn | head -6
 done
 git -C /repo checkout -- .
+git -C /verif checkout -- evidence 2>/dev/null
 python3 - <<'PY'
 import glob,os
 for f in glob.glob('/verif/replays/*.json'): os.remove(f)
